@@ -77,15 +77,30 @@ def posmask(n, positions):
     return np.array([(i + 1) in s for i in range(n)], dtype=bool)
 
 
-# Memory-layout variants of an argument (spec section 6: the outcome depends on the values only).
-# 'C' plain copy; 'ro' read-only; 'strided' every second element of a larger array along every axis;
-# 'F' a transposed view of a C array (Fortran order; 1-D: strided); 'swap' non-native byte order;
-# '0d' arrays plain, scalar arguments handed over as 0-d arrays / numpy integers.
-VARIANTS = ['C', 'ro', 'strided', 'F', 'swap', '0d']
+# Variants of HOW an argument is handed over (spec section 6: the outcome depends on the values only).
+# A variant is a label 'LAYOUT.TYPE.MASKTYPE.SCALARFORM':
+#   LAYOUT      'C' plain copy; 'ro' read-only; 'strided' every second element of a larger array along every axis;
+#               'F' a transposed view of a C array (Fortran order; 1-D: strided); 'swap' non-native byte order
+#   TYPE        numeric type of every numeric array argument whose values are all integral and fit: float64, int64,
+#               int32, int16, uint16, uint8 (otherwise the argument stays float64)
+#   MASKTYPE    dtype of mask arguments (0 / 1 values): bool and every integer width
+#   SCALARFORM  scalar arguments: 'py' Python numbers, 'np' numpy scalars (int64 / float64), '0d' 0-d arrays,
+#               'u1' numpy.uint8 for non-negative integers (else as 'np')
+LAYOUTS = ['C', 'ro', 'strided', 'F', 'swap']
+TYPES = ['f8', 'i8', 'i4', 'i2', 'u2', 'u1']
+MASKTYPES = ['bool', 'i1', 'u1', 'i2', 'u2', 'i4', 'u4', 'i8', 'u8']
+SFORMS = ['py', 'np', '0d', 'u1']
+VARIANTS = LAYOUTS       # (kept: the layouts used for pairs of calls)
+
+
+def vp(v):
+    parts = (v or 'C').split('.')
+    return parts + ['C', 'f8', 'bool', 'py'][len(parts):]
 
 
 def lay(a, v):
     a = np.asarray(a)
+    v = vp(v)[0]
     if v == 'ro':
         b = a.copy()
         b.setflags(write=False)
@@ -102,17 +117,51 @@ def lay(a, v):
     return a.copy()
 
 
+def typed(a, v):
+    """the numeric array a (float64) in the variant's numeric type, when its values are integral and fit."""
+    a = np.asarray(a)
+    t = vp(v)[1]
+    if t == 'f8' or a.size == 0 or a.dtype.kind != 'f' or not np.all(a == np.round(a)):
+        return a
+    info = np.iinfo(np.dtype(t))
+    if a.min() < info.min or a.max() > info.max:
+        return a
+    return a.astype(t)
+
+
+def arr(a, v):
+    return lay(typed(a, v), v)
+
+
+def marr(mask, v, base=None):
+    """a boolean mask as the variant's mask dtype (values 0 / 1)."""
+    t = vp(v)[2]
+    m = np.asarray(mask)
+    return lay(m if t == 'bool' else m.astype(t), v)
+
+
 def sc0(x, v, kind=float):
-    """a scalar argument: plain Python number, or (variant '0d') a 0-d array / numpy integer."""
-    if v != '0d':
+    """a scalar argument in the variant's scalar form."""
+    f = vp(v)[3]
+    integral = isinstance(x, (int, np.integer)) and not isinstance(x, bool)
+    if f == 'py' or isinstance(x, bool):
         return x
-    return np.int64(x) if kind is int else np.array(x)
+    if f == 'u1' and integral and 0 <= x <= 255:
+        return np.uint8(x)
+    if f == '0d':
+        return np.array(x)
+    return np.int64(x) if integral else np.float64(x)
 
 
 def variant_of(ctx_seed, c):
     """Rotate the variants over the cases, by seed (deterministic in the case's content)."""
     import zlib
-    return VARIANTS[(zlib.crc32(repr(sorted((k, repr(x)) for k, x in c.items())).encode()) + ctx_seed) % len(VARIANTS)]
+    h = zlib.crc32(repr(sorted((k, repr(x)) for k, x in c.items())).encode()) + ctx_seed
+    return '.'.join([LAYOUTS[h % 5], TYPES[(h // 5) % 6], MASKTYPES[(h // 30) % 9], SFORMS[(h // 270) % 4]])
+
+
+def random_variant(rng):
+    return '.'.join([rng.choice(LAYOUTS), rng.choice(TYPES), rng.choice(MASKTYPES), rng.choice(SFORMS)])
 
 
 def exc_name(ex):
@@ -147,27 +196,27 @@ def reject_call(c, conv, use_none, v='C'):
     """Concretise a spec call: model is an arbitrary fixed ramp, data = model + diff."""
     from pydl.pydlutils.math import djs_reject
     n = c['n']
-    model = 3.0 * np.arange(n, dtype='d') - 2.0
+    model = 3.0 * np.arange(n, dtype='d') + 20.0          # keeps data = model + diff non-negative (unsigned types)
     data = model + np.array([fl(d) for d in c['diff']], dtype='d')
     sc = [Fraction(*q) for q in c['scale']]
     sig = sc if c['mode'] == 'sigma' else [1 / x if x else None for x in sc]
     wgt = sc if c['mode'] == 'weight' else [1 / x if x else None for x in sc]
     kw = {}
     if conv == 'sigma':
-        kw['sigma'] = lay(np.array([float(x) for x in sig], dtype='d'), v)
+        kw['sigma'] = arr(np.array([float(x) for x in sig], dtype='d'), v)
     elif conv == 'sigma-scalar':
-        kw['sigma'] = sc0(float(sig[0]), v)
+        kw['sigma'] = sc0(int(sig[0]) if sig[0].denominator == 1 else float(sig[0]), v)
     else:
-        kw['invvar'] = lay(np.array([float(x * x) for x in wgt], dtype='d'), v)
+        kw['invvar'] = arr(np.array([float(x * x) for x in wgt], dtype='d'), v)
     for name in ('lower', 'upper', 'maxdev'):
         if c[name]:
             kw[name] = sc0(num(c[name][0]), v)
     full = list(range(1, n + 1))
     if not (use_none and sorted(c['inmask']) == full):
-        kw['inmask'] = lay(posmask(n, c['inmask']), v)
+        kw['inmask'] = marr(posmask(n, c['inmask']), v)
     if not (use_none and sorted(c['prev']) == full):
-        kw['outmask'] = lay(posmask(n, c['prev']), v)
-    data, model = lay(data, v), lay(model, v)
+        kw['outmask'] = marr(posmask(n, c['prev']), v)
+    data, model = arr(data, v), arr(model, v)
     return reject_observe(lambda: djs_reject(data, model, sticky=c['sticky'], grow=sc0(c['grow'], v, int), **kw), n)
 
 
@@ -207,8 +256,25 @@ def reject_record(c, obs, conv):
             'exact': True, 'out': obs['out'], 'qdone': obs['qdone']}
 
 
-def reject_classify(c, exp, obs):
-    """Name the known deviation (spec operator Dev_GrowIgnored) that explains the mismatch exactly."""
+def int_finding(how, obs_exc='', kind='reject'):
+    """D-C17-3: djs_reject with integer-typed arguments (in-place float into an integer work array, unsigned differences /
+    negated unsigned limits wrap).  D-C17-4: djs_maskinterp truncates interpolated values of integer N-d images."""
+    parts = vp(how)
+    if kind == 'reject':
+        if obs_exc.startswith('UFuncTypeError') or obs_exc.startswith('OverflowError'):
+            return 'D-C17-3'
+        if parts[1] in ('u1', 'u2') or parts[3] == 'u1':
+            return 'D-C17-3'
+    elif kind == 'interp' and parts[1] != 'f8':
+        return 'D-C17-4'
+    return None
+
+
+def reject_classify(c, exp, obs, how='C'):
+    """Name the known deviation that explains the mismatch (Dev_GrowIgnored; integer-typed arguments)."""
+    f = int_finding(how, obs.get('exc', ''))
+    if f:
+        return f
     if c['grow'] >= 2 and obs['err'] and obs['exc'].startswith('IndexError'):
         return 'D-C17-1'
     if c['grow'] == 1 and not obs['err'] and obs['out'] == exp.get('dev'):
@@ -227,9 +293,10 @@ def interp_call(c, variant, v='C'):
     size = int(np.prod(shape))
     y = np.array([fl(q) for q in c['y']], dtype='d').reshape(shape)
     m = posmask(size, c['bad'])
-    mask = (m if variant.endswith('bool') else m.astype(np.int32)).reshape(shape)
-    x = lay(np.array([fl(q) for q in c['x']], dtype='d').reshape(shape), v) if c['x'] else None
-    y, mask = lay(y, v), lay(mask, v)
+    mask = m.reshape(shape)
+    x = arr(np.array([fl(q) for q in c['x']], dtype='d').reshape(shape), v) if c['x'] else None
+    y = arr(y, v)
+    mask = lay(mask, v) if variant.endswith('bool') else (marr(mask, v) if vp(v)[2] != 'bool' else lay(mask.astype(np.int32), v))
     y0 = y.copy()
     try:
         if variant.startswith('interp1'):
@@ -267,8 +334,8 @@ def interp_judge(c, exp, obs):
 # ----------------------------------------------------------------------------------------------
 def aes_call(c, v='C'):
     from pydl.pydlspec2d.spec2d import aesthetics
-    flux = lay(np.array([fl(q) for q in c['flux']], dtype='d'), v)
-    ivar = lay(np.array(c['ivar'], dtype='d'), v)
+    flux = arr(np.array([fl(q) for q in c['flux']], dtype='d'), v)
+    ivar = arr(np.array(c['ivar'], dtype='d'), v)
     f0 = flux.copy()
     try:
         with np.errstate(all='ignore'):
@@ -280,7 +347,7 @@ def aes_call(c, v='C'):
         return {'err': True, 'exc': 'output shape %r' % (out.shape,), 'out': None}
     if not np.array_equal(flux, f0):
         return {'err': True, 'exc': 'input array modified in place', 'out': None}
-    return {'err': False, 'exc': '', 'out': out}
+    return {'err': False, 'exc': '', 'out': out, 'intflux': flux.dtype.kind in 'iu'}
 
 
 def aes_judge(c, exp, obs):
@@ -288,6 +355,8 @@ def aes_judge(c, exp, obs):
         return 'raised ' + obs['exc']
     out = obs['out']
     free = set(exp['free'])
+    if obs.get('intflux') and c['method'] == 'mean':
+        free = set(range(1, len(out) + 1))   # integer flux: 'mean' keeps the flux dtype; the statement fixes only WHERE flux changes
     for p, q in enumerate(exp['val']):
         if c['ivar'][p] != 0:
             if out[p] != fl(q):
@@ -303,8 +372,6 @@ def aes_judge(c, exp, obs):
 def median_call(arr, w, dtype, v='C'):
     from pydl.pydlutils.math import djs_median
     a = np.array(arr, dtype=dtype)
-    if v == 'swap' and a.ndim == 1:
-        v = 'ro'      # 1-D: scipy.signal.medfilt refuses non-native byte order (reported, not asserted)
     a = lay(a, v)
     a0 = a.copy()
     try:
@@ -367,9 +434,27 @@ def sky_table(ctx, tbl):
     return _tables[key]
 
 
-def sky_dtypes(flags):
+SKY_EXTRA = {'i1': ('int8', 6), 'u1': ('uint8', 7), 'u2': ('uint16', 15), 'u4': ('uint32', 31)}
+
+
+def sky_dtypes(flags, v=None):
+    """the four mask types of the statement, plus (rotated with the variant) one more integer width that holds the bits."""
     top = max([b for row in flags for px in row for b in px] or [0])
-    return [d for d, mx in SKY_DTYPES if top <= mx]
+    out = [d for d, mx in SKY_DTYPES if top <= mx]
+    extra = SKY_EXTRA.get(vp(v)[2]) if v else None
+    if extra and top <= extra[1]:
+        out.append(extra[0])
+    return out
+
+
+def int_dtype(values, v):
+    """the variant's integer type if the (integral) values fit, else int64."""
+    t = vp(v)[1]
+    if t == 'f8':
+        return 'int64'
+    info = np.iinfo(np.dtype(t))
+    flat = np.asarray(values).reshape(-1)
+    return np.dtype(t).name if (flat.min() >= info.min and flat.max() <= info.max) else 'int64'
 
 
 def sky_call(ctx, c, dtype, v='C'):
@@ -380,7 +465,7 @@ def sky_call(ctx, c, dtype, v='C'):
     vals = [[sum(1 << b for b in px) for px in row] for row in c['flags']]
     ormask = np.array(vals, dtype=np.uint64).astype(dtype)
     andmask = lay(np.zeros(ormask.shape, dtype=dtype), v)
-    ivar, ormask = lay(ivar, v), lay(ormask, v)
+    ivar, ormask = arr(ivar, v), lay(ormask, v)
     iv0, om0 = ivar.copy(), ormask.copy()
     try:
         out = skymask(ivar, andmask, ormask, ngrow=sc0(c['ngrow'], v, int))
@@ -407,7 +492,9 @@ def sky_judge(exp, obs):
     return ''
 
 
-def sky_classify(dtype, obs):
+def sky_classify(dtype, obs, c=None, how='C'):
+    if c is not None and vp(how)[3] == 'u1' and c['ngrow'] >= 128 and not obs['err']:
+        return 'D-C17-5'      # width = 2*ngrow + 1 overflows a numpy.uint8 ngrow
     if dtype in ('int16', 'int32', 'int64') and obs['err'] and obs['exc'].startswith('TypeError'):
         return 'D-C17-2'
     return None
@@ -430,28 +517,29 @@ def run_case(ctx, c, exp, idx=0, deferred=None, lv=None):
                         deferred.append((c, exp, conv, reject_record(c, obs, conv)))
                     why = ''
                 res.append((conv + ('/None-masks' if use_none else '') + '@' + lv, why, obs,
-                            reject_classify(c, exp, obs) if why else None))
+                            reject_classify(c, exp, obs, lv) if why else None))
     elif kind in ('interp1', 'interpnd'):
         variants = ['nd-bool', 'nd-int'] if kind == 'interpnd' else ['interp1-int', 'interp1-bool', 'nd-int']
         for v in variants:
             obs = interp_call(c, v, lv)
-            res.append((v + '@' + lv, interp_judge(c, exp, obs), obs, None))
+            why = interp_judge(c, exp, obs)
+            res.append((v + '@' + lv, why, obs, int_finding(lv, kind='interp') if (why and kind == 'interpnd') else None))
     elif kind == 'aesth':
         obs = aes_call(c, lv)
         res.append(('float64@' + lv, aes_judge(c, exp, obs), obs, None))
     elif kind == 'median':
-        for dt in ('float64', 'int64', 'float32'):
+        for dt in ('float64', int_dtype(c['a'], lv), 'float32'):
             obs = median_call(c['a'], c['w'], dt, lv)
             res.append((dt + '@' + lv, median_judge(exp, obs), obs, None))
     elif kind == 'median2':
-        for dt in ('float64', 'float32'):
+        for dt in ('float64', int_dtype(c['A'], lv), 'float32'):
             obs = median_call(c['A'], c['w'], dt, lv)
             res.append((dt + '@' + lv, median_judge(exp, obs), obs, None))
     elif kind == 'sky':
-        for dt in sky_dtypes(c['flags']):
+        for dt in sky_dtypes(c['flags'], lv):
             obs = sky_call(ctx, c, dt, lv)
             why = sky_judge(exp, obs)
-            res.append((dt + '@' + lv, why, obs, sky_classify(dt, obs) if why else None))
+            res.append((dt + '@' + lv, why, obs, sky_classify(dt, obs, c, lv) if why else None))
     else:
         raise core.MachineryError('unknown case kind %r' % kind)
     return res
@@ -528,23 +616,32 @@ def rec_reject(rng, n_chain=3):
         if mode == 'sigma' and rng.random() < 0.5:          # exactly known points: sigma = 0
             sig = [Fraction(0) if rng.random() < 0.3 else v for v in sig]
     zero_w = [mode == 'invvar' and rng.random() < 0.1 for _ in range(n)]
+    grid = rng.random() < 0.45          # everything on an integer grid, so that integer-typed arrays can carry it
+    if grid:
+        sig = [s if s.denominator == 1 else Fraction(2) for s in sig]
+        if mode == 'invvar':
+            sig = [Fraction(1) for _ in sig] if rng.random() < 0.5 else [rng.choice([Fraction(1), Fraction(1, 2)]) for _ in sig]
     lims = {}
     for name, choices in (('lower', [None, 0, 1, Fraction(5, 2), 5]), ('upper', [None, 0, 2, Fraction(7, 2), 5]),
                           ('maxdev', [None, 3, Fraction(15, 2), 12])):
-        lims[name] = rng.choice(choices)
-    model = [Fraction(rng.randint(-20, 20), 4) for _ in range(n)]
+        lims[name] = rng.choice([x for x in choices if not grid or x is None or Fraction(x).denominator == 1])
+    den = 1 if grid else 4
+    off = 40 if (grid and rng.random() < 0.7) else 0          # non-negative data and model: unsigned types apply
+    model = [Fraction(rng.randint(-20, 20), den) + off for _ in range(n)]
     diff = []
     for k in range(n):
         p = rng.random()
         if p < 0.15:
             d = Fraction(0)
         elif p < 0.45:
-            d = Fraction(rng.randint(-12, 12), 4)
+            d = Fraction(rng.randint(-12, 12), den)
         elif p < 0.75:
-            d = Fraction(rng.randint(-100, 100), 4)
+            d = Fraction(rng.randint(-100, 100), 4) if not grid else Fraction(rng.randint(-20, 25))
         else:     # exactly on / one step beyond a threshold
             lim = rng.choice([v for v in lims.values() if v is not None] or [1])
-            d = Fraction(lim) * (sig[k] if rng.random() < 0.7 else 1) * rng.choice([-1, 1]) + Fraction(rng.choice([-1, 0, 0, 1]), 4)
+            d = Fraction(lim) * (sig[k] if rng.random() < 0.7 else 1) * rng.choice([-1, 1]) + Fraction(rng.choice([-1, 0, 0, 1]), den)
+            if grid:
+                d = Fraction(max(-20, min(25, int(d))))
         diff.append(d)
     data = [m + d for m, d in zip(model, diff)]
     inmask = [k + 1 for k in range(n) if rng.random() < 0.8]
@@ -552,28 +649,28 @@ def rec_reject(rng, n_chain=3):
     sticky = rng.random() < 0.5
     grow = rng.choice([0, 0, 1, 1, 2, 3, 4])
     pass_inmask = rng.random() < 0.8 or len(inmask) < n
-    mdt = rng.choice([bool, bool, np.int32, np.uint8])      # "a value that evaluates to False" marks bad points
-    v = rng.choice(VARIANTS)
+    v = random_variant(rng)       # layout, numeric type, mask dtype ("a value that evaluates to False" marks bad points), scalars
     recs = []
     for _ in range(n_chain):
         kw = {}
         if mode == 'invvar':
             scale = [Fraction(0) if z else 1 / s for s, z in zip(sig, zero_w)]
-            kw['invvar'] = lay(np.array([float(s * s) for s in scale], dtype='d'), v)
+            kw['invvar'] = arr(np.array([float(s * s) for s in scale], dtype='d'), v)
             recmode = 'weight'
         else:
             scale = sig
-            kw['sigma'] = sc0(float(sig[0]), v) if mode == 'sigma-scalar' else lay(np.array([float(s) for s in sig], dtype='d'), v)
+            kw['sigma'] = (sc0(int(sig[0]) if sig[0].denominator == 1 else float(sig[0]), v) if mode == 'sigma-scalar'
+                           else arr(np.array([float(s) for s in sig], dtype='d'), v))
             recmode = 'sigma'
         for name, lim in lims.items():
             if lim is not None:
                 kw[name] = sc0(float(lim) if Fraction(lim).denominator != 1 else int(lim), v)
         if pass_inmask:
-            kw['inmask'] = lay(posmask(n, inmask).astype(mdt), v)
+            kw['inmask'] = marr(posmask(n, inmask), v)
         if len(prev) < n or rng.random() < 0.7:
-            kw['outmask'] = lay(posmask(n, prev).astype(mdt), v)
-        d_arr = lay(np.array([float(x) for x in data], dtype='d'), v)
-        m_arr = lay(np.array([float(x) for x in model], dtype='d'), v)
+            kw['outmask'] = marr(posmask(n, prev), v)
+        d_arr = arr(np.array([float(x) for x in data], dtype='d'), v)
+        m_arr = arr(np.array([float(x) for x in model], dtype='d'), v)
         obs = reject_observe(lambda: djs_reject(d_arr, m_arr, sticky=sticky, grow=sc0(grow, v, int), **kw), n)
         recs.append({'kind': 'reject', 'n': n, 'data': [fr(v) for v in data], 'model': [fr(v) for v in model],
                      'mode': recmode, 'scale': [fr(v) for v in scale],
@@ -582,7 +679,7 @@ def rec_reject(rng, n_chain=3):
                      'maxdev': [fr(Fraction(lims['maxdev']))] if lims['maxdev'] is not None else [],
                      'inmask': inmask if pass_inmask else list(range(1, n + 1)), 'prev': list(prev),
                      'sticky': sticky, 'grow': grow, 'err': obs['err'], 'exact': True, 'out': obs['out'],
-                     'qdone': obs['qdone'], 'exc': obs['exc']})
+                     'qdone': obs['qdone'], 'exc': obs['exc'], 'how': v})
         if obs['err'] or obs['qdone']:
             break
         prev = obs['out']
@@ -594,7 +691,8 @@ def rec_interp(rng):
     shape = [rng.randint(1, 10)] if nd == 1 else [rng.randint(1, 4) for _ in range(nd)]
     size = int(np.prod(shape))
     axis = rng.randint(0, nd - 1)
-    y = [Fraction(rng.randint(-8, 8), rng.choice([1, 1, 2, 4])) for _ in range(size)]
+    grid = rng.random() < 0.5
+    y = [Fraction(rng.randint(0 if grid else -8, 8), 1 if grid else rng.choice([1, 1, 2, 4])) for _ in range(size)]
     dens = rng.choice([0.0, 0.2, 0.5, 0.8, 1.0])
     bad = [p + 1 for p in range(size) if rng.random() < dens]
     if rng.random() < 0.5:
@@ -609,7 +707,8 @@ def rec_interp(rng):
     const = rng.random() < 0.5
     variant = rng.choice(['interp1-int', 'interp1-bool']) if (nd == 1 and rng.random() < 0.5) else rng.choice(['nd-int', 'nd-bool'])
     c = {'y': [fr(v) for v in y], 'bad': bad, 'x': [fr(v) for v in x], 'const': const, 'shape': shape, 'axis': axis}
-    obs = interp_call(c, variant, rng.choice(VARIANTS))
+    how = random_variant(rng)
+    obs = interp_call(c, variant, how)
     out, exact = [], True
     if not obs['err']:
         for p, v in enumerate(obs['out']):
@@ -619,19 +718,21 @@ def rec_interp(rng):
                 q = [0, 1]
             out.append(q)
     return {'kind': 'interp', 'shape': shape, 'axis': axis, 'y': c['y'], 'bad': bad, 'x': c['x'], 'const': const,
-            'variant': variant, 'err': obs['err'], 'exact': exact, 'out': out, 'exc': obs['exc']}
+            'variant': variant, 'err': obs['err'], 'exact': exact, 'out': out, 'exc': obs['exc'], 'how': how}
 
 
 def rec_aes(rng):
     n = rng.randint(1, 10)
-    flux = [Fraction(rng.randint(-8, 8), rng.choice([1, 2])) for _ in range(n)]
+    grid = rng.random() < 0.5
+    flux = [Fraction(rng.randint(-8, 8), 1 if grid else rng.choice([1, 2])) for _ in range(n)]
     dens = rng.choice([0.0, 0.3, 0.6, 1.0])
     ivar = [0 if rng.random() < dens else rng.randint(1, 3) for _ in range(n)]
     method = rng.choice(['traditional', 'noconst', 'mean', 'nothing'])
     c = {'flux': [fr(v) for v in flux], 'ivar': ivar, 'method': method}
-    obs = aes_call(c, rng.choice(VARIANTS))
+    how = random_variant(rng)
+    obs = aes_call(c, how)
     out, exact = [], True
-    allbad_mean = method == 'mean' and all(v == 0 for v in ivar)
+    allbad_mean = method == 'mean' and (all(v == 0 for v in ivar) or obs.get('intflux'))
     if not obs['err']:
         for p, v in enumerate(obs['out']):
             q = exact_rat(v) if ivar[p] != 0 else rat(v)
@@ -641,7 +742,7 @@ def rec_aes(rng):
                 q = [0, 1]
             out.append(q)
     return {'kind': 'aesth', 'flux': c['flux'], 'ivar': ivar, 'method': method, 'err': obs['err'], 'exact': exact,
-            'out': out, 'exc': obs['exc']}
+            'out': out, 'exc': obs['exc'], 'how': how, 'fillopen': bool(method == 'mean' and obs.get('intflux'))}
 
 
 def rec_median(rng):
@@ -649,13 +750,15 @@ def rec_median(rng):
         n = rng.randint(1, 12)
         w = rng.choice([v for v in (1, 3, 5, 7, 9) if v <= n])
         a = [rng.randint(-5, 5) for _ in range(n)]
-        obs = median_call(a, w, rng.choice(['float64', 'int64', 'int32']), rng.choice(VARIANTS))
+        how = random_variant(rng)
+        obs = median_call(a, w, rng.choice(['float64', int_dtype(a, how)]), how)
         rec = {'kind': 'median', 'a': a, 'w': w}
     else:
         nr, nc = rng.randint(3, 5), rng.randint(3, 5)
         w = 3
         a = [[rng.randint(-3, 3) for _ in range(nc)] for _ in range(nr)]
-        obs = median_call(a, w, 'float64', rng.choice(VARIANTS))
+        how = random_variant(rng)
+        obs = median_call(a, w, rng.choice(['float64', int_dtype(a, how)]), how)
         rec = {'kind': 'median2', 'A': a, 'w': w}
     exact = True
     out = []
@@ -665,7 +768,7 @@ def rec_median(rng):
             exact = False
         else:
             out = o.astype(int).tolist()
-    rec.update({'err': obs['err'], 'exact': exact, 'out': out, 'exc': obs['exc']})
+    rec.update({'err': obs['err'], 'exact': exact, 'out': out, 'exc': obs['exc'], 'how': how})
     return rec
 
 
@@ -705,8 +808,9 @@ def rec_sky(ctx, rng):
             flags.append(row)
     ivar = [[rng.choice([0, 1, 2, 3, 7]) for _ in range(L)] for _ in range(nr)]
     c = {'tbl': tbl, 'ngrow': ngrow, 'ivar': ivar, 'flags': flags}
-    dtype = rng.choice(sky_dtypes(flags))
-    obs = sky_call(ctx, c, dtype, rng.choice(VARIANTS))
+    how = random_variant(rng)
+    dtype = rng.choice(sky_dtypes(flags, how))
+    obs = sky_call(ctx, c, dtype, how)
     out, exact = [], True
     if not obs['err']:
         o = np.asarray(obs['out'], dtype='d')
@@ -715,7 +819,7 @@ def rec_sky(ctx, rng):
         else:
             out = o.astype(int).tolist()
     return {'kind': 'sky', 'tbl': {'BADSKYCHI': tbl['BADSKYCHI'], 'REDMONSTER': tbl['REDMONSTER']}, 'fulltbl': tbl,
-            'ngrow': ngrow, 'ivar': ivar, 'flags': flags, 'dtype': dtype, 'err': obs['err'], 'exact': exact,
+            'ngrow': ngrow, 'ivar': ivar, 'flags': flags, 'dtype': dtype, 'how': how, 'err': obs['err'], 'exact': exact,
             'out': out, 'exc': obs['exc']}
 
 
@@ -731,6 +835,9 @@ def layout_exec(ctx, fn, args, v):
     if fn == 'interp':
         return _vals(interp_call(args, args['variant'], v))
     if fn == 'aesth':
+        if args['method'] == 'mean':      # integer flux: the 'mean' fill keeps the flux dtype (not asserted)
+            parts = vp(v)
+            v = '.'.join([parts[0], 'f8'] + parts[2:])
         return _vals(aes_call(args, v))
     if fn == 'median':
         return _vals(median_call(args['a'], args['w'], args['dtype'], v))
@@ -775,7 +882,7 @@ def rec_layout(ctx, rng):
     choices = ['F', 'F', 'strided', 'ro', 'swap'] if rank >= 2 else ['strided', 'ro', 'swap']
     if fn == 'median' and rank == 1:
         choices = ['strided', 'ro']
-    la, lb = 'C', rng.choice(choices)
+    la, lb = 'C', '.'.join([rng.choice(choices), rng.choice(TYPES), rng.choice(MASKTYPES), rng.choice(SFORMS)])
     return {'kind': 'layout', 'fn': fn, 'la': la, 'lb': lb, 'args': args,
             'a': layout_exec(ctx, fn, args, la), 'b': layout_exec(ctx, fn, args, lb)}
 
@@ -786,11 +893,11 @@ def rejnd_exec(args, grow, v):
     data = np.array([fl(q) for q in args['data']], dtype='d').reshape(shape)
     model = np.array([fl(q) for q in args['model']], dtype='d').reshape(shape)
     scale = np.array([float(x) for x in args['scale']], dtype='d').reshape(shape)
-    kw = {args['mode']: lay(scale, v), 'lower': args['lower'], 'upper': args['upper'], 'grow': grow}
+    kw = {args['mode']: arr(scale, v), 'lower': sc0(args['lower'], v), 'upper': sc0(args['upper'], v), 'grow': sc0(grow, v, int)}
     if args['inmask']:
-        kw['inmask'] = lay(np.ones(shape, dtype=bool), v)
+        kw['inmask'] = marr(np.ones(shape, dtype=bool), v)
     try:
-        out, qdone = djs_reject(lay(data, v), lay(model, v), **kw)
+        out, qdone = djs_reject(arr(data, v), arr(model, v), **kw)
     except Exception as ex:
         return {'err': True, 'exc': exc_name(ex), 'out': [], 'qdone': False}
     out = np.asarray(out)
@@ -806,8 +913,9 @@ def rec_rejnd(rng):
     nd = rng.choice([2, 2, 3])
     shape = [rng.randint(3, 5), rng.randint(3, 7)] if nd == 2 else [3, rng.randint(3, 4), rng.randint(3, 4)]
     size = int(np.prod(shape))
-    model = [Fraction(rng.randint(-8, 8), 4) for _ in range(size)]
-    diff = [Fraction(rng.randint(-4, 4), 4) for _ in range(size)]
+    grid = rng.random() < 0.5            # integer grid, non-negative: every numeric type can carry it
+    model = [Fraction(rng.randint(-8, 8), 1 if grid else 4) + (40 if grid else 0) for _ in range(size)]
+    diff = [Fraction(rng.randint(-4, 4), 1 if grid else 4) for _ in range(size)]
     interior = [p for p in range(size) if all(0 < c < n - 1 for c, n in zip(np.unravel_index(p, shape), shape))]
     outliers = [rng.choice(interior)] + ([rng.randrange(size)] if rng.random() < 0.4 else [])
     if rng.random() < 0.15:
@@ -818,10 +926,63 @@ def rec_rejnd(rng):
             'mode': rng.choice(['sigma', 'invvar']), 'scale': [rng.choice([1, 1, 4]) for _ in range(size)], 'lower': 5, 'upper': 5,
             'inmask': rng.random() < 0.5}
     grow = rng.randint(0, 3)
-    la, lb = rng.choice(['C', 'ro']), rng.choice(['F', 'F', 'F', 'strided', 'swap'])
+    la = rng.choice(['C', 'ro'])
+    lb = '.'.join([rng.choice(['F', 'F', 'F', 'strided', 'swap']), rng.choice(TYPES), rng.choice(MASKTYPES), rng.choice(SFORMS)])
     r0 = rejnd_exec(args, 0, 'C')
     return {'kind': 'rejnd', 'shape': shape, 'grow': grow, 'rej0': r0['out'], 'err0': r0['err'], 'la': la, 'lb': lb, 'args': args,
             'a': rejnd_exec(args, grow, la), 'b': rejnd_exec(args, grow, lb)}
+
+
+def falsify(accepted, rng, per_kind):
+    """Copies of accepted records with one observed field changed beyond tolerance (a mask bit, a completion flag, a
+    value, an outcome of one of two layouts)."""
+    import copy
+    out, count = [], {}
+    order = list(range(len(accepted)))
+    rng.shuffle(order)
+    for k in order:
+        r = copy.deepcopy(accepted[k])
+        kind = r['kind']
+        if count.get(kind, 0) >= per_kind or r.get('err') or not r.get('exact', True):
+            continue
+        if kind == 'reject':
+            if r['grow'] == 0 and rng.random() < 0.5:        # grow = 0: the mask is determined; flip one bit, keep qdone coherent
+                p = rng.randint(1, r['n'])
+                r['out'] = sorted(set(r['out']) ^ {p})
+                r['qdone'] = r['out'] == sorted(r['prev'])
+            else:
+                r['qdone'] = not r['qdone']
+        elif kind == 'interp':
+            if not r['out']:
+                continue
+            p = rng.randrange(len(r['out']))
+            r['out'][p] = [r['out'][p][0] + r['out'][p][1], r['out'][p][1]]      # value + 1
+        elif kind == 'aesth':
+            cand = [p for p in range(len(r['out'])) if r['ivar'][p] != 0 or not (r['fillopen'] or all(v == 0 for v in r['ivar']))]
+            if not cand:
+                continue
+            p = rng.choice(cand)
+            r['out'][p] = [r['out'][p][0] + r['out'][p][1], r['out'][p][1]]
+        elif kind == 'median':
+            r['out'][rng.randrange(len(r['out']))] += 1
+        elif kind == 'median2':
+            r['out'][rng.randrange(len(r['out']))][rng.randrange(len(r['out'][0]))] += 1
+        elif kind == 'sky':
+            q, p = rng.randrange(len(r['out'])), rng.randrange(len(r['out'][0]))
+            r['out'][q][p] = r['ivar'][q][p] + 1           # neither 0 nor the input value
+        elif kind == 'layout':
+            if not r['b']['out']:
+                continue
+            r['b']['out'][rng.randrange(len(r['b']['out']))] = 'falsified'
+        elif kind == 'rejnd':
+            if rng.random() < 0.5:
+                r['b']['qdone'] = not r['b']['qdone']
+            else:
+                size = int(np.prod(r['shape']))
+                r['b']['out'] = sorted(set(r['b']['out']) ^ {rng.randint(1, size)})
+        count[kind] = count.get(kind, 0) + 1
+        out.append(r)
+    return out
 
 
 def rec_nontrivial(r):
@@ -846,10 +1007,20 @@ def rec_nontrivial(r):
 
 
 def rec_classify(r, why=''):
+    if r['kind'] == 'reject' and int_finding(r.get('how'), r.get('exc', '')):
+        return 'D-C17-3'
+    if r['kind'] == 'interp' and len(r['shape']) > 1 and int_finding(r.get('how'), kind='interp') and 'masked sample' in why:
+        return 'D-C17-4'
+    if r['kind'] == 'rejnd' and int_finding(r['lb'], r['b'].get('exc', '')):
+        return 'D-C17-3'
+    if r['kind'] == 'layout' and r['fn'] == 'interp' and len(r['args']['shape']) > 1 and int_finding(r['lb'], kind='interp'):
+        return 'D-C17-4'
     if r['kind'] == 'reject' and r['err'] and r['grow'] >= 2 and r['exc'].startswith('IndexError'):
         return 'D-C17-1'
     if r['kind'] == 'reject' and 'Dev_GrowIgnored' in why:
         return 'D-C17-1'
+    if r['kind'] == 'sky' and not r['err'] and vp(r.get('how'))[3] == 'u1' and r['ngrow'] >= 128:
+        return 'D-C17-5'
     if r['kind'] == 'sky' and r['err'] and r['dtype'] in ('int16', 'int32', 'int64') and r['exc'].startswith('TypeError'):
         return 'D-C17-2'
     return None
@@ -860,7 +1031,7 @@ def strip(r):
     if r['kind'] in ('layout', 'rejnd'):
         ab = {k: {f: x for f, x in r[k].items() if f != 'exc'} for k in ('a', 'b')}
         return dict({k: v for k, v in r.items() if k in ('kind', 'shape', 'grow', 'rej0')}, **ab)
-    return {k: v for k, v in r.items() if k not in ('exc', 'variant', 'fulltbl', 'const')}
+    return {k: v for k, v in r.items() if k not in ('exc', 'variant', 'fulltbl', 'const', 'how')}
 
 
 # ----------------------------------------------------------------------------------------------
@@ -886,7 +1057,12 @@ def run(ctx):
         'Fortran-ordered transposed view / byte-swapped / 0-d scalars, rotated by seed, expected values unchanged; pairs of calls '
         'in two layouts are judged equal by TLC; djs_reject on rank 2-3 data: only layout independence, grow superset and the '
         'completion flag are asserted (the N-d neighbourhood is left open)',
-        'not asserted: 1-D djs_median with a byte-swapped array (scipy.signal.medfilt raises ValueError for non-native dtypes)']
+        'numeric type (spec section 6): every numeric array argument with integral values is also handed over as int64 / int32 / '
+        'int16 / uint16 / uint8 (as the values fit), masks as bool and every integer width (0/1 values), scalar arguments as '
+        'Python numbers, numpy scalars (incl. uint8) and 0-d arrays, rotated by seed; expected values unchanged',
+        'aesthetics with integer-typed flux and method mean: only WHERE flux changes is asserted (the result keeps the flux dtype, '
+        'the fill is the truncated mean; the statement does not fix the fill value)',
+        'not in the statement: maxrej / groupsize / groupdim of djs_reject (maxrej is silently without effect when groupdim is not given)']
     rep = Reporter(ctx)
     groups = [['rejnum', 'interp1', 'interpnd', 'aesth', 'median', 'median2', 'sky', 'skywide'], ['reject']]
     if ctx.quick:
@@ -964,6 +1140,9 @@ def run(ctx):
         rep.report('recorded %s %s' % (r['kind'], finding or bad[k]),
                    {'what': 'recorded %s call rejected by Trace_Reject: %s; %s' % (r['kind'], why, brief(r)),
                     'kind': 'recorded', 'record': r}, finding=finding)
+    # ---- binding self-test: accepted records with ONE observed field falsified must all be rejected ----
+    fals = falsify([strip(r) for k, r in enumerate(recs) if k not in bad], random.Random(ctx.seed + 1), 40 if ctx.quick else 120)
+    core.binding_selftest(ctx, 'Trace_Reject', fals, 'recorded_calls')
     ctx.sample({'recorded_call': recs[0]})
     ctx.sample({'recorded_call': next(r for r in recs if r['kind'] == 'sky')})
     rep.summary()
@@ -1004,34 +1183,38 @@ def replay_record(ctx, r):
         for name in ('lower', 'upper', 'maxdev'):
             if r[name]:
                 kw[name] = num(r[name][0])
-        kw['inmask'] = posmask(n, r['inmask'])
-        kw['outmask'] = posmask(n, r['prev'])
-        data = np.array([fl(q) for q in r['data']], dtype='d')
-        model = np.array([fl(q) for q in r['model']], dtype='d')
+        how = r.get('how', 'C')
+        for name in ('sigma', 'invvar'):
+            if name in kw:
+                kw[name] = arr(kw[name], how)
+        kw['inmask'] = marr(posmask(n, r['inmask']), how)
+        kw['outmask'] = marr(posmask(n, r['prev']), how)
+        data = arr(np.array([fl(q) for q in r['data']], dtype='d'), how)
+        model = arr(np.array([fl(q) for q in r['model']], dtype='d'), how)
         obs = reject_observe(lambda: djs_reject(data, model, sticky=r['sticky'], grow=r['grow'], **kw), n)
         r.update({'err': obs['err'], 'out': obs['out'], 'qdone': obs['qdone'], 'exc': obs['exc']})
     elif k == 'interp':
-        obs = interp_call(r, r.get('variant', 'nd-int'))
+        obs = interp_call(r, r.get('variant', 'nd-int'), r.get('how', 'C'))
         r.update({'err': obs['err'], 'exc': obs['exc']})
         if not obs['err']:
             out = [rat(v) for v in obs['out']]
             r['exact'] = all(q is not None for q in out)
             r['out'] = [q or [0, 1] for q in out]
     elif k == 'aesth':
-        obs = aes_call(r)
+        obs = aes_call(r, r.get('how', 'C'))
         r.update({'err': obs['err'], 'exc': obs['exc']})
         if not obs['err']:
             out = [rat(v) for v in obs['out']]
             r['exact'] = all(q is not None for q in out)
             r['out'] = [q or [0, 1] for q in out]
     elif k in ('median', 'median2'):
-        obs = median_call(r['a'] if k == 'median' else r['A'], r['w'], 'float64')
+        obs = median_call(r['a'] if k == 'median' else r['A'], r['w'], 'float64', r.get('how', 'C'))
         r.update({'err': obs['err'], 'exc': obs['exc']})
         if not obs['err']:
             r['out'] = np.asarray(obs['out']).astype(int).tolist()
     elif k == 'sky':
         obs = sky_call(ctx, {'tbl': r.get('fulltbl', r['tbl']), 'ngrow': r['ngrow'], 'ivar': r['ivar'], 'flags': r['flags']},
-                       r['dtype'])
+                       r['dtype'], r.get('how', 'C'))
         r.update({'err': obs['err'], 'exc': obs['exc']})
         if not obs['err']:
             r['out'] = np.asarray(obs['out']).astype(int).tolist()
